@@ -16,12 +16,13 @@ def Store.put (s : Store) (v : String) (b : Bytes) : Store := (v, b) :: s.filter
 def isSecureBootVar (v : String) : Bool := v == "PK" || v == "KEK" || v == "db" || v == "dbx"
 
 /-- what `TestFS.WriteVar` stores for the marshalled bytes `b` of the value: for PK/KEK/db/dbx it
-    probes for an authentication descriptor and, when one parses, stores the re-encoded database
-    that follows it (an undecodable remainder leaves the empty database) -/
+    probes for an authentication descriptor and, when one parses, stores the bytes that follow it
+    as they are (F23 repair: it used to decode them as a signature database, drop the error and
+    store the re-encoding, i.e. the empty database for list types the decoder does not handle) -/
 def storedValue (v : String) (b : Bytes) : Bytes :=
   if isSecureBootVar v then
     match readAuth b with
-    | .ok (_, rest) => (match readDb rest with | some db => encDb db | none => [])
+    | .ok (_, rest) => rest
     | _ => b
   else b
 
